@@ -35,10 +35,31 @@ CLAIMS = {
         "note": NOTE_COMMON,
         "technique": "interprocedural parameter-flow closure over resolved callees and constructor wiring; gated-SSA path-term matching",
     },
+    "C03": {
+        "text": "Static decision of the structural clauses of geometry validation: the extracted rejection formula of all coordinate "
+                "validators of each of the 9 classes equals the complement of the specified acceptance set on a grid containing "
+                "every interval endpoint and arity limit (0, MAX_FREQUENCY, their neighbours, lengths 0-6) at the nesting depth of "
+                "the List annotation; normalising validators yield normal form on every ordering; the tag<->class table is complete "
+                "and injective; geometry_validate dispatches on the object's own tag in all three modes; validators return or raise "
+                "convertible errors. pydantic coercion / nesting-shape rejection / JSON dump equality are trusted, not decided.",
+        "design_ref": "DESIGN.md section 3, C03 (R03.1-R03.5)",
+        "note": NOTE_COMMON,
+        "technique": "guard extraction from gated-SSA summaries, compiled to formulas and compared with the specification on an endpoint grid / all weak orderings",
+    },
+    "C04": {
+        "text": "Static decision of the structural clauses of schema enforcement: every score/affinity field carries ge=0, le=1; the five "
+                "relational validators are registered in the right mode and their extracted rejection condition equals the specified one "
+                "(truth tables over named atoms, all orderings of start/end, set-comprehension normal forms); no construction or "
+                "mutation path in the package bypasses validation (package sweep with positive fixture). Equality of behaviour across "
+                "constructor / dict / JSON input is pydantic's (trusted).",
+        "design_ref": "DESIGN.md section 3, C04 (R04.1-R04.3)",
+        "note": NOTE_COMMON,
+        "technique": "pydantic field-table extraction; guard formulas vs specification truth tables; who-may-call sweep for validation-bypass APIs",
+    },
 }
 
 _DONE = set(CLAIMS)
 NOT_APPLICABLE = {f"C{i:02d}": "checker under construction in this session (static rules designed in DESIGN.md section 3); "
                                "not yet claimed" for i in range(1, 21) if f"C{i:02d}" not in _DONE}
 
-FIX_COMMITS = ["c835c87 (C01 licence)", "7a83dd0 (C01 prediction-set sequences)", "531fadf (C02 evaluation tags)"]
+FIX_COMMITS = ["c835c87 (C01 licence)", "7a83dd0 (C01 prediction-set sequences)", "531fadf (C02 evaluation tags)", "6fda367 (C04 Evaluation.score bounds)"]
